@@ -132,8 +132,12 @@ func (r *hRun) finish() error {
 
 // liveHistory builds the Live function of a history property.
 func liveHistory(p *hProfile, mk func() []hOracle, minSteps, maxSteps int, nt func(r *hRun) bool) func(t *rapid.T, x *Ctx) (bson.D, error) {
+	return liveHistoryOn(openMem, p, mk, minSteps, maxSteps, nt)
+}
+
+func liveHistoryOn(openEnv func() (*hEnv, error), p *hProfile, mk func() []hOracle, minSteps, maxSteps int, nt func(r *hRun) bool) func(t *rapid.T, x *Ctx) (bson.D, error) {
 	return func(t *rapid.T, x *Ctx) (bson.D, error) {
-		env, err := openMem()
+		env, err := openEnv()
 		if err != nil {
 			return nil, fmt.Errorf("harness: %v", err)
 		}
@@ -161,8 +165,12 @@ func liveHistory(p *hProfile, mk func() []hOracle, minSteps, maxSteps int, nt fu
 
 // runHistory replays a recorded history.
 func runHistory(mk func() []hOracle, nt func(r *hRun) bool) func(c bson.D, x *Ctx) error {
+	return runHistoryOn(openMem, mk, nt)
+}
+
+func runHistoryOn(openEnv func() (*hEnv, error), mk func() []hOracle, nt func(r *hRun) bool) func(c bson.D, x *Ctx) error {
 	return func(c bson.D, x *Ctx) error {
-		env, err := openMem()
+		env, err := openEnv()
 		if err != nil {
 			return fmt.Errorf("harness: %v", err)
 		}
